@@ -65,10 +65,17 @@ def h1_request_bytes(r: Dict[str, Any], extra: Optional[List[str]] = None,
     body = make_body(r["body_len"], r["seed"])
     lines = [f"{'POST' if body else 'GET'} {r['path']} HTTP/1.1", "Host: example.com"]
     lines += extra or []
-    if body:
+    chunked = bool(body) and r.get("chunked")
+    if chunked:
+        lines.append("Transfer-Encoding: chunked")
+    elif body:
         lines.append(f"Content-Length: {len(body)}")
     if close:
         lines.append("Connection: close")
+    if chunked:
+        k = max(1, len(body) // 2)
+        wire = b"".join(b"%x\r\n" % len(c) + c + b"\r\n" for c in (body[:k], body[k:]) if c)
+        body = wire + b"0\r\n\r\n"
     return ("\r\n".join(lines) + "\r\n\r\n").encode() + body
 
 
@@ -107,6 +114,9 @@ def case_strategy(draw: Any) -> Dict[str, Any]:
         case["first"]["body_len"] = 0
     if kind == "h2c_body" and case["first"]["body_len"] == 0:
         case["first"]["body_len"] = 5
+    if kind == "h2c_body":
+        # the body that makes the upgrade offer void may be framed either way
+        case["first"]["chunked"] = draw(st.booleans())
     return case
 
 
@@ -330,12 +340,15 @@ FIXED_FOLLOW = [{"path": "/r1", "body_len": 17, "seed": 5}, {"path": "/r2", "bod
 def enumerate_splits(tier: str) -> Any:
     kinds = ["plain", "prior", "alpn_h2", "h2c", "h2c_body", "ws", "alpn_h1_prior"]
     for kind in kinds:
-        for settings in (["default", "empty", "absent"] if kind == "h2c" else ["default"]):
+        variants = ["default", "empty", "absent"] if kind == "h2c" else ["default"]
+        if kind == "h2c_body":
+            variants = ["default", "chunked"]  # (framing of the body, not a settings payload)
+        for settings in variants:
             for when in ("same", "later"):
                 case = {"kind": kind, "sched": 0, "ws_conn": "keep-alive, Upgrade",
                         "ws_upgrade": "WebSocket",
                         "first": {"path": "/r0", "body_len": 5 if kind == "h2c_body" else 0,
-                                  "seed": 1},
+                                  "seed": 1, "chunked": settings == "chunked"},
                         "follow": list(FIXED_FOLLOW), "follow_when": when, "settings": settings,
                         "ws_msg": "hé", "seg": None}
                 b = build(case)
